@@ -15,6 +15,14 @@ NA = {
 PENDING = "static check designed in DESIGN.md section 3 but not built yet; not claimed until it exists"
 
 CHECKS = {
+ "C17": dict(level="proof", technique="premise checking for a written concurrency lemma: x86 constant propagation / CFG shape of the lock-cmpxchg protocol, IR must-pass-through and value-set analysis, whole-library reference ownership and call-graph reachability",
+   text="The property quantifies over schedules; the check decides, on the FIPS_MODE build, every premise P1-P8 of the hand proof in DESIGN.md section 5 (exactly once, nobody early, same verdict, no livelock on x86-TSO): ownership of self_test_status by two functions (relocation scan of all objects), the single lock cmpxchg 2->3 with constant operands and an untouched eax on the winner's edge, the fast path, the store-free wait loop with exit 'status != 3' and a fresh load returned, one publisher reached only when the check returned neither 0 nor 1 and only after both suites, the published value a|b with both suites' return-value sets within {0,1}, the 0-iff-passed result mapping, and no isal_ function reachable from the suites (call graph through every dispatch candidate).",
+   note="Trusted: x86-TSO, atomicity of lock cmpxchg, termination of the suites, the lemma itself (30 lines, in DESIGN.md). The check decides premises about code shape, not interleavings; a model checker would be the natural second opinion and is outside this technique family.",
+   ref="3/C17 and section 5"),
+ "C18": dict(level="proof", technique="effect analysis over object code: abstract-address classification of every store, relocation ownership, escape/callee-store summaries for materialised static addresses, ELF alignment rule; IR global-write scan",
+   text="Every one of the ~28k store instructions in the 230 objects is classified by its abstract address (stack, caller object via argument/loaded pointer, static symbol): the only stores to writable static storage are the 64 dispatch-slot bindings (each from its own dispatcher) and the two self_test_status writers. Addresses of writable statics that are materialised (lea/GOT) are followed: never stored to memory, passed to callees only in arguments the callee (or, for a stub, any dispatch candidate) never stores through. Each slot is written by exactly one 8-byte mov, read by one 8-byte indirect jmp and is naturally aligned by section alignment and offset, so a racing first call reads either the trampoline or the final binding. IR: no store/memcpy/memset/atomic targets a non-constant global in the 77 C units.",
+   note="Trusted: MC mayStore flags; x86 single-copy atomicity of aligned 8-byte accesses. Assumed: stores through pointers loaded from caller objects hit caller objects (no pointer to a library static is ever stored, which is checked). 'Same result as when run alone' is derived from absence of shared writable state, not tested.",
+   ref="3/C18"),
  "C12": dict(level="proof", technique="path-sensitive symbolic interpretation of the dispatch ladders (CPUID/XCR0 bit-set facts) + ISA classification of all reachable code by re-assembly under GNU as -march restrictions + relocation ownership rules",
    text="All 64 X_dispatch_init ladders are enumerated path by path over symbolic CPUID/XGETBV results (587 feasible paths; bit-set facts, no solver). For every path the bound candidate's entire reachable code (through direct and tail calls) must assemble under generic64 + the extensions that path established (AVX only with OSXSAVE+AVX+XCR0[2:1], AVX-512 bits only with XCR0[7:5]) + the pinned platform floor; entry points that share an object must take structurally identical decisions with the same family tag; each slot is written only by its own dispatcher, which is called only from its own mbinit, which is referenced only by the slot's initial value, and the stored value is a link-time address chosen by CPUID/XCR0 facts alone. Exhaustive over dispatchers, paths and reachable instructions.",
    note="Trusted: binutils 2.40 opcode table (feature <-> encoding), its dependency closure as 'architecturally consistent'; LLVM MC decoding. Features no dispatcher tests (aes, pclmul, bmi, bmi2, ...) are platform preconditions and are listed per candidate in the evidence, not judged. Family tags are name based.",
